@@ -8,6 +8,9 @@ def main(path):
     if r.get("property") == "C16":
         from checks import c16
         c16.replay(r)
+    if r.get("property") == "C13":
+        from checks import c13
+        c13.replay(r)
     case = r.get("case") or {}
     line = case.get("line")
     if not line and "fn" in case and "input" in case:
